@@ -22,15 +22,15 @@ RULE = ('family "catalog": every catalogue design (C07/C08/C09/C14 grids + extra
         'evaluation in which some wire is non-zero')
 ASSUMPTIONS = ['the observation points are those of the statement: after simulator creation, after any clock call, inside listeners, waveform samples',
                'values poked by the harness itself go through Wire.put (the public way to drive an undriven wire)']
-BOUNDS = {'quick': 'catalogue at the quick grids; extremes for widths 1..3',
-          'thorough': 'catalogue at the thorough grids; extremes for widths 1..6'}
+BOUNDS = {'quick': 'catalogue at the quick grids; extremes for widths 0..3 and the special widths; numpy integer scalars of every dtype as stimulus',
+          'thorough': 'catalogue at the thorough grids; extremes for widths 0..6 and the special widths; numpy scalars'}
 CHUNK = 60
 
 
 def shards(tier):
     n = len([d for d in c01._designs(tier) if d[2] == 'top'])
     out = [{'tier': tier, 'family': 'catalog', 'lo': i, 'hi': min(n, i + CHUNK)} for i in range(0, n, CHUNK)]
-    for w in range(1, (6 if tier == 'thorough' else 3) + 1):
+    for w in range(0, (6 if tier == 'thorough' else 3) + 1):        # width 0: a legal wire that can only carry 0
         out.append({'tier': tier, 'family': 'extremes', 'w': w})
     # widths around the sizes that invite special-casing (bytes, machine words): boundary values only
     for w in ([7, 8, 9, 15, 16, 17, 31, 32, 33, 63, 64, 65, 127, 128, 129] if tier == 'thorough' else [8, 16, 31, 32, 33, 63, 64, 65, 128]):
@@ -245,6 +245,48 @@ def run_extremes(d, res):
                                               'detail': {'value': v, 'width': w, 'got': x.get()}})
 
 
+def run_numpy(d, res):
+    """stimulus given as numpy integer scalars (what a test bench that computes its vectors with numpy pokes): the call may be
+    refused (exception), but a wire never ends up outside its range"""
+    try:
+        import numpy as np
+    except Exception:
+        return
+    import numbers
+    w = d['w']
+    desc0 = {'family': 'extremes', 'w': w, 'boundary': bool(d.get('boundary')), 'numpy': 1}
+    for tname in ('int8', 'int16', 'int32', 'int64', 'uint8', 'uint16', 'uint32', 'uint64'):
+        t = getattr(np, tname)
+        info = np.iinfo(t)
+        for v in sorted({info.min, info.min + 1, -6, -1, 0, 1, 5, info.max - 1, info.max, (1 << w) - 1, 1 << w, -(1 << w)}):
+            if not (info.min <= v <= info.max):
+                continue
+            for how in ('put', 'prepare'):
+                for cls, mk in (('Wire', lambda hw: hw.wire('x', w)), ('BidirWire', lambda hw: hw.bidir_wire('x', w))):
+                    hw = py4hw.HWSystem()
+                    x = mk(hw)
+                    try:
+                        with np.errstate(all='ignore'):
+                            if how == 'put':
+                                x.put(t(v))
+                            else:
+                                x.prepare(t(v))
+                                Wire.settleAll()
+                    except Exception:
+                        core.reset_prepared()
+                        res['refused_numpy'] = res.get('refused_numpy', 0) + 1
+                        continue
+                    res['evaluations'] += 1
+                    g = x.get()
+                    ok = isinstance(g, numbers.Integral) and 0 <= int(g) < (1 << w)
+                    res['_outcomes'].add((cls, tname, int(g) if isinstance(g, numbers.Integral) else repr(g)))
+                    if not ok:
+                        sig = 'C06:extremes:%s.%s:numpy' % (cls, how)
+                        if sum(1 for vv in res['violations'] if vv['sig'] == sig) < 2:
+                            res['violations'].append({'sig': sig, 'shard': dict(desc0, kind=cls, value=int(v), dtype=tname), 'trace': [],
+                                                      'detail': {'value': int(v), 'dtype': tname, 'width': w, 'got': repr(g)}})
+
+
 def run_shard(d):
     res = {'evaluations': 0, 'distinct_nontrivial': 0, 'configs': 0, 'constructor_rejected': 0, 'listener_calls': 0,
            'waveform_samples': 0, 'violations': [], 'samples': [], '_outcomes': set()}
@@ -252,6 +294,7 @@ def run_shard(d):
         run_catalog(d, res)
     else:
         run_extremes(d, res)
+        run_numpy(d, res)
     res['samples'].append({'shard': d})
     res['distinct_outcomes'] = len(res.pop('_outcomes'))
     res['vacuous_ok'] = True
@@ -279,5 +322,6 @@ def replay(v):
             bad = bad or bad_wires(wires)
         return {'design': d, 'violates': bool(bad), 'bad': bad[:4]}
     run_extremes({'w': d['w'], 'boundary': d.get('boundary')}, res)
+    run_numpy({'w': d['w'], 'boundary': d.get('boundary')}, res)
     hit = [x for x in res['violations'] if x['sig'] == v['sig']]
     return {'design': d, 'violates': bool(hit), 'detail': hit[:1]}
